@@ -32,6 +32,10 @@ func runC04(w *World) {
 	w.NoStall = true
 	dir := Dir(w.Draw(2, "dir"))
 	hold := w.Range(3, 9, "hold")
+	if w.Chance(1, 5, "zero-hold") {
+		hold = 0 // no keepalive timers at all: WriteUpdate must work all the same
+		w.Probe("negotiated-hold-time-zero")
+	}
 	nsess := 1 + w.Draw(3, "nsess")
 	var calls []*wuCall
 	ncall := 0
@@ -153,6 +157,9 @@ func runC04(w *World) {
 		cause := Pick(w, "teardown", "fin", "rst", "silence", "handler-notification", "close")
 		if k+1 < nsess && cause == "close" {
 			cause = "fin"
+		}
+		if hold == 0 && cause == "silence" {
+			cause = "rst" // nothing expires with a zero hold time
 		}
 		if cause == "close" && k+1 == nsess {
 			cause = "close"
